@@ -43,6 +43,10 @@ func repoDir() string {
 // Load type-checks every package of the module (vendor mode, no tests) and builds SSA.
 // Any load or type error is fatal: a static tool only sees what was parsed.
 func Load(dir, goarch string) (*World, error) {
+	// pinned offline toolchain: go1.26.8 (the repo's go.mod needs >= 1.26.5)
+	if _, err := os.Stat("/opt/veriftools/go1.26.8/bin/go"); err == nil {
+		os.Setenv("PATH", "/opt/veriftools/go1.26.8/bin:"+os.Getenv("PATH"))
+	}
 	env := append(os.Environ(), "GOFLAGS=-mod=vendor", "GOWORK=off", "GOPROXY=off", "GOSUMDB=off", "GOTOOLCHAIN=local")
 	if goarch != "" {
 		env = append(env, "GOARCH="+goarch, "CGO_ENABLED=0")
